@@ -279,6 +279,57 @@ def adversarial_designs():
         yield (f"adv/self-clash/portref-signals/{order}", b7)
 
 
+def ladder_designs():
+    """the designer holds the invented name AND the next candidates (`x`, `x_`, `x__`), declared in every order, as
+    instances / unconnected signals / connected signals / ports - for each naming rule (the probe for a free name walks the
+    ladder: every rung has to be looked up in the module as it stands)"""
+    import hdl21 as h
+    import itertools as it
+
+    def mk(rule, order, what, rungs):
+        def b():
+            L = h.ExternalModule(name="LdL", port_list=[h.Inout(name="a"), h.Inout(name="b")], desc="", domain="adv")
+            m = h.Module(name="Ladder")
+            m.v = h.Signal()
+            base = {"bundle": "bb_x", "array": "arr_0", "pair": "pr_p", "portref": "i0_a", "noconn": "i1_b"}[rule]
+            for k in order:
+                nm = base + "_" * k
+                if k >= rungs:
+                    continue
+                if what == "instance":
+                    m.add(L()(a=m.v, b=m.v), name=nm)
+                elif what == "unused-signal":
+                    m.add(h.Signal(), name=nm)
+                elif what == "port":
+                    m.add(h.Port(), name=nm)
+                else:
+                    sig = m.add(h.Signal(), name=nm)
+                    m.add(L()(a=sig, b=m.v), name=f"use{k}")
+            if rule == "bundle":
+                B = h.Bundle(name="LdB")
+                B.add(h.Signal(name="x"))
+                m.bb = B()
+                m.ub = L()(a=m.bb.x, b=m.v)
+            elif rule == "array":
+                m.w2 = h.Signal(width=2)
+                m.arr = 2 * L()(a=m.w2, b=m.v)
+            elif rule == "pair":
+                m.d = h.Diff()
+                m.pr = h.Pair(L())(a=m.d, b=m.v)
+            elif rule == "portref":
+                m.i0 = L()(b=m.v)
+                m.i9 = L()(a=m.i0.a, b=m.v)
+            else:
+                m.i1 = L()(a=m.v, b=h.NoConn())
+            return m
+        return b
+    for rule in ("bundle", "array", "pair", "portref", "noconn"):
+        for what in ("instance", "unused-signal", "used-signal", "port"):
+            for rungs in (2, 3):
+                for order in it.permutations(range(rungs)):
+                    yield (f"adv/ladder/{rule}/{what}/{'-'.join(map(str, order))}", mk(rule, order, what, rungs))
+
+
 def cross_module_designs():
     """the same bundle type under the same instance name in two modules of one design (and of successive elaborations in
     one process): one module has no clash, the other has a designer's object named like a flattened member"""
@@ -379,19 +430,19 @@ def run(ctx):
                         "loop insertion sites (arrays.py, flatten_bundles.py, inst_bundles.py): one arbitrary iteration "
                         "from an arbitrary state is proved; Path.to_name and the Instance constructor are abstracted "
                         "(a string / a new named Instance)"]
-    ctx.run_bounded("adversarial-names", __import__("itertools").chain(adversarial_designs(), cross_module_designs()), check_adv,
+    ctx.run_bounded("adversarial-names", __import__("itertools").chain(adversarial_designs(), cross_module_designs(), ladder_designs()), check_adv,
                     rule="designer signals/instances named exactly as the elaborator's inventions (inst_port, "
                          "noconn names, bundle_member, array_k, pair_member) with 0-2 trailing underscores, declared "
                          "before or after the construct; invented names that clash with each other (bundle members a_b vs a.b, "
                          "implicit signals i0.a_b vs i0_a.b); oracle: reference meaning + identity of designer objects; "
                          "all distinct and non-trivial",
-                    bound="5 naming rules x 3 suffixes x 2 orders (port references and no-connects: x 5 ways the designer's signal is used) + 8 self-clash designs + 36 designs with one bundle type under one instance name in two modules (clash in the parent, the child or a sibling; child elaborated in the same or an earlier call)", key_of=lambda c: c[0])
+                    bound="5 naming rules x 3 suffixes x 2 orders (port references and no-connects: x 5 ways the designer's signal is used) + 8 self-clash designs + 36 designs with one bundle type under one instance name in two modules (clash in the parent, the child or a sibling; child elaborated in the same or an earlier call) + 160 ladders: the invented name and the next one or two candidates all held by the designer, declared in every order, for each of the five naming rules", key_of=lambda c: c[0])
     return INFO
 
 
 def replay(payload):
     want = (payload.get("input") or {}).get("design")
-    for desc, b in __import__("itertools").chain(adversarial_designs(), cross_module_designs()):
+    for desc, b in __import__("itertools").chain(adversarial_designs(), cross_module_designs(), ladder_designs()):
         if desc == want:
             r = check_adv((desc, b))
             print("replay:", r)
